@@ -3,6 +3,9 @@
 #include <stdlib.h>
 #include <string.h>
 #include "vi.h"
+#ifdef NEATVI_VERIF
+#include "verif.h"
+#endif
 
 static char *bufs[256];
 static int lnmode[256];
@@ -71,3 +74,21 @@ void reg_done(void)
 	for (i = 0; i < LEN(bufs); i++)
 		free(bufs[i]);
 }
+
+#ifdef NEATVI_VERIF
+/* all non-empty registers as [[name, linewise, "hex"], ...] */
+void reg_verif_dump(struct sbuf *sb)
+{
+	int i, first = 1;
+	sbuf_chr(sb, '[');
+	for (i = 0; i < LEN(bufs); i++) {
+		if (bufs[i]) {
+			sbuf_printf(sb, "%s[%d,%d,", first ? "" : ",", i, lnmode[i]);
+			verif_hex(sb, bufs[i], -1);
+			sbuf_chr(sb, ']');
+			first = 0;
+		}
+	}
+	sbuf_chr(sb, ']');
+}
+#endif
